@@ -72,6 +72,10 @@ func TestVerif_C23_Tenant(t *testing.T) {
 	for ci := 0; ci < ncorp; ci++ {
 		rng := verifkit.Rng(int64(23000 + ci))
 		c := corpus.Gen(rng, ci+1, corpus.Profile{MaxRepos: 4, MaxDocs: 4, MaxLen: 24, Compound: true, OneShard: ci%2 == 0, Tombstones: ci%3 == 0})
+		for try := 1; ci%4 == 0 && len(c.Repos) < 3 && try < 20; try++ {
+			// (the arrangement below needs three repositories in the shard)
+			c = corpus.Gen(verifkit.Rng(int64(23000+ci+1000*try)), ci+1, corpus.Profile{MaxRepos: 4, MaxDocs: 4, MaxLen: 24, Compound: true, OneShard: true})
+		}
 		for i := range c.Repos {
 			c.Repos[i].Tenant = 1 + rng.Intn(3)
 		}
@@ -95,6 +99,20 @@ func TestVerif_C23_Tenant(t *testing.T) {
 						done = true
 					}
 				}
+			}
+		}
+		if ci%4 == 0 && len(c.Repos) >= 3 && c.Repos[0].Shard == c.Repos[1].Shard && c.Repos[1].Shard == c.Repos[2].Shard {
+			// a tombstoned repository in front of a requesting tenant's repository in front of a foreign one,
+			// all in one compound shard: per-repository tables of the shard must stay aligned
+			for i := range c.Repos {
+				c.Repos[i].Tomb = false
+			}
+			c.Repos[0].Tomb = true
+			c.Repos[1].Tenant = 1 + (ci/4)%2
+			c.Repos[2].Tenant = 3 - (ci/4)%2
+			c.Repos[0].Tenant = c.Repos[1].Tenant
+			for i := range c.Repos {
+				c.Repos[i].Prio = len(c.Repos) - i // shard order = corpus order
 			}
 		}
 		l := c01Load(t, c, true)
